@@ -160,7 +160,7 @@ class Check:
             keys = list(objects)
             rng.shuffle(keys)
             objects = {k: objects[k] for k in keys}
-            cmd = 'inspect' if r % 2 else 'detect'
+            cmd = 'inspect' if (r // 4 + r) % 2 else 'detect'          # every mode with both commands
             mode = r % 4
             if mode == 3:
                 key = 'ro/' + sel[0]
